@@ -7,6 +7,7 @@ import (
 	"os"
 	"os/exec"
 	"reflect"
+	"runtime"
 	"strings"
 	"testing"
 
@@ -150,7 +151,7 @@ func genC07(t *rapid.T) c07Case {
 			st.T = sharing[rapid.IntRange(0, len(sharing)-1).Draw(t, "tsharing")]
 		}
 		s := c.Pool[st.T]
-		st.Op = rapid.SampledFrom([]string{"size", "encode", "encode", "decode", "decode", "decode", "decodebad", "decodebad", "invalid"}).Draw(t, "op")
+		st.Op = rapid.SampledFrom([]string{"size", "encode", "encode", "decode", "decode", "decode", "decodebad", "decodebad", "invalid", "gc"}).Draw(t, "op")
 		switch st.Op {
 		case "size", "encode":
 			st.V = core.GenStructVal(t, vcfg, s)
@@ -228,6 +229,13 @@ func hashStr(s string) string { return fmt.Sprintf("%x", sha256.Sum256([]byte(s)
 // execStep performs the call of one step and checks it against the stateless model.
 func execStep(pool []*core.StructSpec, st c07Step) (stepResult, bool, *Failure) {
 	var res stepResult
+	if st.Op == "gc" {
+		// two collections empty every sync.Pool: the calls that follow start from new pool objects,
+		// and whatever earlier calls left behind must not be needed (or found) any more
+		runtime.GC()
+		runtime.GC()
+		return res, true, nil
+	}
 	if st.Op == "invalid" {
 		chain, err := buildInvalidChain(*st.Inv)
 		if err != nil {
@@ -414,7 +422,7 @@ func runC07(w *worker) func(c c07Case) *Failure {
 				f.Msg = fmt.Sprintf("step %d/%d (%s on pool type %d): %s", i, len(c.Steps), st.Op, st.T, f.Msg)
 				return f
 			}
-			if failedBefore && ok {
+			if failedBefore && ok && st.Op != "gc" {
 				interesting = true
 			}
 			// earlier destinations, of successful and of failed decodes, still read as they did
